@@ -235,19 +235,37 @@ def run(repo: Repo, chk: Check):
     sm = cp.func("CompilerPassSetModuleNames.handle_import_from")
     chk.saw("compile_pass", sm.qual)
     ws = f"{cp.path}:{sm.lineno} in {sm.qual}"
+    scfg, srd = fn_ctx(sm)
     name_store = [st for st in ast.walk(sm) if isinstance(st, ast.Assign) and any(isinstance(t, ast.Attribute) and t.attr == "name" for t in st.targets)]
-    key_store = [st for st in ast.walk(sm) if isinstance(st, ast.Assign) and any(isinstance(t, ast.Subscript) and "_renamed_modules" in norm(t.value) for t in st.targets)]
-    ok = len(name_store) == 1 and len(key_store) == 1 and norm(name_store[0].value) == norm(key_store[0].targets[0].slice) \
-        and norm(key_store[0].value) == norm(name_store[0].targets[0].value)
-    chk.judge("R13.e", "compile_pass:SetModuleNames:module.name and the key of the module table are the same alias", ok,
-              "the module is stored under one name and renamed to another: 'm.f()' would resolve to a scope that does not exist or to another module", None, ws)
-    alias_defs = []
-    if name_store and isinstance(name_store[0].value, ast.Name):
-        scfg, srd = fn_ctx(sm)
-        ids = live_ids(scfg, name_store[0])
-        alias_defs = [norm(d.value) for d in srd.at(ids[0], name_store[0].value.id) if d.value is not None]
-    chk.judge("R13.e", "compile_pass:SetModuleNames:new name = alias if given else the module's own name", alias_defs == ["alias if alias else name"] or alias_defs == ["alias or name"],
-              f"the new module name is {alias_defs}", None, ws)
+    # the table that replaces data.modules at the end of run(): self.<attr>, assigned to self.data.modules
+    runf = cp.func("CompilerPassSetModuleNames.run")
+    tables = {norm(st.value) for st in ast.walk(runf) if isinstance(st, ast.Assign) and any(norm(t).endswith("data.modules") for t in st.targets)}
+    if not tables:
+        raise AnalysisError("SetModuleNames.run: the statement that replaces data.modules by the renamed table was not found")
+    key_store = [st for st in ast.walk(sm) if isinstance(st, ast.Assign) and any(isinstance(t, ast.Subscript) and norm(t.value) in tables for t in st.targets)]
+    if len(name_store) != 1 or len(key_store) != 1:
+        raise AnalysisError(f"SetModuleNames.handle_import_from: expected one store of <module>.name and one store into the renamed table, found {len(name_store)} / {len(key_store)}")
+
+    def resolved(e, at, depth=0):
+        if isinstance(e, ast.Name) and depth < 3:
+            ids_ = live_ids(scfg, at)
+            ds_ = srd.at(ids_[0], e.id) if ids_ else []
+            if len(ds_) == 1 and ds_[0].kind == "assign" and not ds_[0].index and ds_[0].value is not None:
+                return resolved(ds_[0].value, scfg.nodes[ds_[0].node].ast, depth + 1)
+        return norm(e)
+    ns, ks = name_store[0], key_store[0]
+    mod_obj = norm(next(t for t in ns.targets if isinstance(t, ast.Attribute)).value)
+    new_name = resolved(ns.value, ns)
+    key_t = next(t for t in ks.targets if isinstance(t, ast.Subscript))
+    key = resolved(key_t.slice, ks)
+    # the key is the new name itself, or <module>.name read back after it was stored
+    same_key = key == new_name or (key == f"{mod_obj}.name" and ns.lineno <= ks.lineno)
+    same_obj = resolved(ks.value, ks) == resolved(ast.parse(mod_obj, mode="eval").body, ks) or norm(ks.value) == mod_obj
+    chk.judge("R13.e", "compile_pass:SetModuleNames:module.name and the key of the module table are the same alias", same_key and same_obj,
+              f"the module {mod_obj} is renamed to {new_name} but stored under the key {key} (value {norm(ks.value)}): 'm.f()' would resolve to a scope that does not exist "
+              f"or to another module", None, ws)
+    chk.judge("R13.e", "compile_pass:SetModuleNames:new name = alias if given else the module's own name", new_name in ("alias if alias else name", "alias or name", "name if not alias else alias", "name if alias is None else alias", "alias if alias is not None else name"),
+              f"the new module name is {new_name}", None, ws)
     # get_scope_name appends the module's name; get_function_name = scope + '.' + name
     gs = u.func("get_scope_name")
     chk.saw("utils", "get_scope_name")
